@@ -2,7 +2,7 @@
    instances of the lemmas proved here.  Everything is for ALL input texts (lists of code
    points of any length); the character classes and the token table are Section variables
    constrained only by the hypotheses named below. *)
-From Coq Require Import Lia NArith ZArith QArith List Bool Arith.
+From Coq Require Import Lia NArith ZArith QArith Qpower List Bool Arith.
 From Ka Require Import Model.Lexer.
 Import ListNotations.
 Local Open Scope nat_scope.
@@ -660,6 +660,254 @@ Proof.
   apply andb_true_iff in H; destruct H as [Hc Ha]. rewrite Hc, (IH Ha). reflexivity.
 Qed.
 
+(* ================================================================== literal values *)
+(* The mathematical value of a digit string, defined independently of the lexer's
+   left-to-right accumulation: positional notation, digit_i * base^(number of digits after it). *)
+Fixpoint pos_value (base : Z) (ds : list Z) : Z :=
+  match ds with
+  | [] => 0%Z
+  | d :: t => (d * base ^ Z.of_nat (List.length t) + pos_value base t)%Z
+  end.
+Definition dval (c : N) : Z := Z.of_N (c - 48).
+
+Lemma horner_ok : forall base ds acc, forallb (fun c => (hex_val c <? base)%Z) ds = true ->
+  horner base ds acc = Some (acc * base ^ Z.of_nat (List.length ds) + pos_value base (map hex_val ds))%Z.
+Proof.
+  intros base ds; induction ds as [|c t IH]; intros acc H.
+  - simpl. f_equal. ring.
+  - cbn [forallb] in H. apply andb_true_iff in H. destruct H as [Hc Ht].
+    cbn [horner]. rewrite Hc. rewrite (IH _ Ht). f_equal.
+    cbn [map pos_value List.length]. rewrite map_length.
+    rewrite Nat2Z.inj_succ, Z.pow_succ_r by lia. ring.
+Qed.
+Lemma horner_bad : forall base ds acc, forallb (fun c => (hex_val c <? base)%Z) ds = false ->
+  horner base ds acc = None.
+Proof.
+  intros base ds; induction ds as [|c t IH]; intros acc H; [discriminate|].
+  cbn [forallb] in H. cbn [horner]. destruct (hex_val c <? base)%Z; [apply IH; exact H|reflexivity].
+Qed.
+Lemma dec_val_acc : forall ds acc,
+  fold_left (fun a c => (a * 10 + Z.of_N (c - 48))%Z) ds acc
+  = (acc * 10 ^ Z.of_nat (List.length ds) + pos_value 10 (map dval ds))%Z.
+Proof.
+  induction ds as [|c t IH]; intro acc.
+  - simpl. ring.
+  - cbn [fold_left]. rewrite IH. cbn [map pos_value List.length]. rewrite map_length.
+    rewrite Nat2Z.inj_succ, Z.pow_succ_r by lia. unfold dval. ring.
+Qed.
+Lemma dec_val_pos : forall ds, dec_val ds = pos_value 10 (map dval ds).
+Proof. intro ds; unfold dec_val; rewrite dec_val_acc; ring. Qed.
+Lemma hex_val_digit : forall c, is_digit c = true -> hex_val c = dval c.
+Proof. intros c H; unfold hex_val; rewrite H; reflexivity. Qed.
+Lemma pos_value_nonneg : forall base ds, (0 <= base)%Z -> Forall (fun d => (0 <= d)%Z) ds ->
+  (0 <= pos_value base ds)%Z.
+Proof.
+  intros base ds Hb H; induction H as [|d t Hd Ht IH]; simpl; [lia|].
+  assert (0 <= base ^ Z.of_nat (List.length t))%Z by (apply Z.pow_nonneg; exact Hb). nia.
+Qed.
+
+Lemma digit_not_base : forall c, is_digit c = true -> is_base_char c = false.
+Proof.
+  intros c H. apply digit_range in H. unfold is_base_char.
+  repeat (apply orb_false_iff; split); apply N.eqb_neq; lia.
+Qed.
+Lemma digits_not_based : forall A rest, forallb is_digit A = true -> A <> [] ->
+  match rest with [] => True | c :: _ => is_base_char c = false end ->
+  based_window (A ++ rest) = false.
+Proof.
+  intros A rest HA Hn Hr. destruct A as [|c0 [|c1 A']]; [congruence| |].
+  - simpl. destruct rest as [|c1 [|c2 r]]; [reflexivity|reflexivity|]. rewrite Hr. rewrite andb_false_r. reflexivity.
+  - simpl in HA. nb. cbn [app based_window].
+    destruct (A' ++ rest); [reflexivity|]. rewrite (digit_not_base _ H0). rewrite andb_false_r. reflexivity.
+Qed.
+
+Lemma is_nil_digits : forall A (D2 : text), A <> [] -> is_nil A && is_nil D2 = false.
+Proof. intros [|c A] D2 H; [congruence|reflexivity]. Qed.
+
+(* an integer literal followed by something that does not continue the number *)
+Lemma read_num_int : forall A rest, forallb is_digit A = true -> A <> [] ->
+  based_window (A ++ rest) = false -> hd_fails is_digit rest -> starts_dot rest = false ->
+  exp_match rest = None ->
+  read_num (A ++ rest) = NOk (List.length A) (LInt (pos_value 10 (map dval A))).
+Proof.
+  intros A rest HA Hn Bw Hd Hs Hx. unfold read_num. rewrite Bw.
+  pose proof (read_dec_of_parts A false [] rest HA eq_refl Hd (fun _ => conj eq_refl Hs) (is_nil_digits A [] Hn)) as E.
+  simpl app in E. rewrite E. unfold dec_result. rewrite Hx. simpl. rewrite !Nat.add_0_r, dec_val_pos. reflexivity.
+Qed.
+
+(* "digits.." : the range rule *)
+Lemma read_num_range : forall A rest, forallb is_digit A = true -> A <> [] ->
+  read_num (A ++ ch_dot :: ch_dot :: rest) = NOk (List.length A) (LInt (pos_value 10 (map dval A))).
+Proof.
+  intros A rest HA Hn. unfold read_num.
+  rewrite (digits_not_based A (ch_dot :: ch_dot :: rest) HA Hn eq_refl).
+  pose proof (read_dec_of_parts A true [] (ch_dot :: rest) HA eq_refl eq_refl
+                (fun F => ltac:(discriminate)) (is_nil_digits A [] Hn)) as E.
+  simpl app in E. rewrite E. unfold dec_result. simpl. rewrite dec_val_pos. reflexivity.
+Qed.
+
+Lemma exp_match_of_parts : forall sg es rest, forallb is_digit es = true -> es <> [] ->
+  hd_fails is_digit rest -> (sg = [] \/ sg = [ch_plus] \/ sg = [ch_minus]) ->
+  exp_match (ch_e :: sg ++ es ++ rest)
+  = Some (match sg with [c] => (c =? ch_minus)%N | _ => false end, es, 1 + List.length sg + List.length es).
+Proof.
+  intros sg es rest He Hn Hr Hs.
+  destruct (takew_app_stop is_digit es rest He Hr) as [E _].
+  destruct es as [|d ds]; [congruence|]. simpl app in E.
+  destruct Hs as [->|[->| ->]]; cbn [app].
+  - assert (Dd : is_digit d = true) by (simpl in He; nb; assumption).
+    rewrite (exp_match_2 ch_e d _ eq_refl).
+    assert (d <> ch_minus /\ d <> ch_plus) as [N1 N2]
+      by (apply digit_range in Dd; unfold ch_minus, ch_plus; split; lia).
+    apply N.eqb_neq in N1, N2. rewrite N1, N2.
+    rewrite E. reflexivity.
+  - rewrite (exp_match_2 ch_e ch_plus _ eq_refl). simpl (ch_plus =? ch_minus)%N. simpl (ch_plus =? ch_plus)%N.
+    cbv iota. rewrite E. reflexivity.
+  - rewrite (exp_match_2 ch_e ch_minus _ eq_refl). simpl (ch_minus =? ch_minus)%N.
+    cbv iota. rewrite E. reflexivity.
+Qed.
+
+(* scientific notation with an integer mantissa *)
+Lemma read_num_sci : forall A sg es rest, forallb is_digit A = true -> A <> [] ->
+  forallb is_digit es = true -> es <> [] -> hd_fails is_digit rest ->
+  (sg = [] \/ sg = [ch_plus] \/ sg = [ch_minus]) ->
+  read_num (A ++ ch_e :: sg ++ es ++ rest)
+  = nres_of (List.length A + (1 + List.length sg + List.length es))
+      (num_value A false [] (Some (match sg with [c] => (c =? ch_minus)%N | _ => false end, es))).
+Proof.
+  intros A sg es rest HA Hn He Hne Hr Hs. unfold read_num.
+  rewrite (digits_not_based A (ch_e :: sg ++ es ++ rest) HA Hn eq_refl).
+  pose proof (read_dec_of_parts A false [] (ch_e :: sg ++ es ++ rest) HA eq_refl eq_refl
+                (fun _ => conj eq_refl eq_refl) (is_nil_digits A [] Hn)) as E.
+  simpl app in E. rewrite E. unfold dec_result. rewrite (exp_match_of_parts sg es rest He Hne Hr Hs).
+  rewrite !Nat.add_0_r. reflexivity.
+Qed.
+
+Definition lit_Q (l : lit) : Q :=
+  match l with LInt z => inject_Z z | LFrac q => q | LFlt q => q end.
+Definition lit_exact (l : lit) : Prop :=
+  match l with LInt _ => True | LFrac q => Qred q = q | LFlt _ => False end.
+
+Lemma inject_Z_pow10 : forall e, (0 <= e)%Z -> inject_Z (10 ^ e) == Qpower 10 e.
+Proof. intros e He. rewrite Zpower_Qpower by exact He. reflexivity. Qed.
+
+Opaque Qred.
+(* m e±k : the value is exactly m * 10^(±k), an int or a reduced Fraction *)
+Lemma sci_value_exact : forall A neg es v, forallb is_digit es = true ->
+  num_value A false [] (Some (neg, es)) = Some v ->
+  let m := pos_value 10 (map dval A) in
+  let k := pos_value 10 (map dval es) in
+  lit_exact v /\ lit_Q v == inject_Z m * Qpower 10 (if neg then (- k)%Z else k).
+Proof.
+  intros A neg es v He H m k. unfold num_value in H. rewrite !dec_val_pos in H. fold m k in H.
+  assert (Hk : (0 <= k)%Z).
+  { apply pos_value_nonneg; [lia|]. rewrite Forall_forall. intros d Hd. apply in_map_iff in Hd.
+    destruct Hd as (c & <- & Hc). unfold dval. lia. }
+  destruct (neg && (0 <? k)%Z) eqn:Nk.
+  - injection H as <-. apply andb_true_iff in Nk. destruct Nk as [-> Kp]. apply Z.ltb_lt in Kp.
+    split; [unfold lit_exact; apply Qred_complete, Qred_correct|].
+    simpl lit_Q. rewrite Qred_correct.
+    assert (P : (0 < 10 ^ k)%Z) by (apply Z.pow_pos_nonneg; lia).
+    rewrite Qmake_Qdiv. rewrite Z2Pos.id by exact P.
+    rewrite inject_Z_pow10 by lia. rewrite Qpower_opp. reflexivity.
+  - injection H as <-. split; [exact I|]. simpl lit_Q.
+    rewrite inject_Z_mult. rewrite inject_Z_pow10 by exact Hk.
+    destruct neg; [|reflexivity]. simpl in Nk. apply Z.ltb_ge in Nk.
+    assert (k = 0%Z) by lia. subst k. rewrite H. reflexivity.
+Qed.
+
+(* decimals: the model's value is the exact rational of the spelling (the float rounding
+   of the implementation is external), or BadNumberError when that is beyond the float range *)
+Lemma decimal_value_exact : forall D1 D2 ex v,
+  num_value D1 true D2 ex = Some v ->
+  let m := pos_value 10 (map dval (D1 ++ D2)) in
+  let f := Z.of_nat (List.length D2) in
+  let scale := match ex with
+               | None => 1%Q
+               | Some (neg, es) => Qpower 10 (if neg then (- pos_value 10 (map dval es))%Z
+                                              else pos_value 10 (map dval es))
+               end in
+  (forall neg es, ex = Some (neg, es) -> forallb is_digit es = true) ->
+  exists q, v = LFlt q /\ q == inject_Z m / Qpower 10 f * scale /\ ~ (flt_overflow <= q)%Q.
+Proof.
+  intros D1 D2 ex v H m f scale Hes.
+  assert (Hm : mantissa D1 D2 == inject_Z m / Qpower 10 f).
+  { unfold mantissa. rewrite dec_val_pos. fold m. fold f.
+    assert (P : (0 < 10 ^ f)%Z) by (apply Z.pow_pos_nonneg; unfold f; lia).
+    rewrite Qmake_Qdiv. rewrite Z2Pos.id by exact P. rewrite inject_Z_pow10 by (unfold f; lia). reflexivity. }
+  assert (G : forall q0, mk_flt q0 = Some v -> exists q, v = LFlt q /\ q == q0 /\ ~ (flt_overflow <= q)%Q).
+  { intros q0 E. unfold mk_flt in E. destruct (Qle_bool flt_overflow q0) eqn:B; [discriminate|].
+    injection E as <-. exists (Qred q0). split; [reflexivity|]. split; [apply Qred_correct|].
+    rewrite Qred_correct. intro F. apply Qle_bool_iff in F. congruence. }
+  unfold num_value in H. destruct ex as [[neg es]|].
+  - assert (Hk : (0 <= pos_value 10 (map dval es))%Z).
+    { apply pos_value_nonneg; [lia|]. rewrite Forall_forall. intros d Hd. apply in_map_iff in Hd.
+      destruct Hd as (c & <- & Hc). unfold dval. lia. }
+    rewrite dec_val_pos in H. destruct neg.
+    + destruct (G _ H) as (q & -> & Eq & Nf). exists q. split; [reflexivity|]. split; [|exact Nf].
+      rewrite Eq, Hm. unfold scale. rewrite inject_Z_pow10 by exact Hk. rewrite Qpower_opp. reflexivity.
+    + destruct (G _ H) as (q & -> & Eq & Nf). exists q. split; [reflexivity|]. split; [|exact Nf].
+      rewrite Eq, Hm. unfold scale. rewrite inject_Z_pow10 by exact Hk. reflexivity.
+  - destruct (G _ H) as (q & -> & Eq & Nf). exists q. split; [reflexivity|]. split; [|exact Nf].
+    rewrite Eq, Hm. unfold scale. rewrite Qmult_1_r. reflexivity.
+Qed.
+
+Transparent Qred.
+(* d1 . d2 [exponent] read as one token *)
+Lemma read_num_decimal : forall D1 D2 rest, forallb is_digit D1 = true -> forallb is_digit D2 = true ->
+  is_nil D1 && is_nil D2 = false ->
+  hd_fails is_digit rest -> (D2 = [] -> starts_dot rest = false) -> exp_match rest = None ->
+  read_num (D1 ++ ch_dot :: D2 ++ rest)
+  = nres_of (List.length D1 + 1 + List.length D2) (num_value D1 true D2 None).
+Proof.
+  intros D1 D2 rest H1 H2 Hn Hr Hs Hx. unfold read_num.
+  assert (Bw : based_window (D1 ++ ch_dot :: D2 ++ rest) = false).
+  { destruct D1 as [|c0 [|c1 D1']]; [simpl; destruct (D2 ++ rest) as [|c1 [|c2 r0]]; reflexivity| |].
+    - simpl. destruct (D2 ++ rest); [reflexivity|]. rewrite andb_false_r. reflexivity.
+    - simpl in H1. nb. cbn [app based_window]. destruct (D1' ++ ch_dot :: D2 ++ rest); [reflexivity|].
+      rewrite (digit_not_base _ H0). rewrite andb_false_r. reflexivity. }
+  rewrite Bw.
+  pose proof (read_dec_of_parts D1 true D2 rest H1 H2 Hr (fun F => ltac:(discriminate)) Hn) as E.
+  simpl app in E. rewrite E. unfold dec_result. rewrite Hx.
+  destruct (is_nil D2) eqn:N2; [|reflexivity].
+  destruct D2; [|discriminate]. rewrite (Hs eq_refl). reflexivity.
+Qed.
+
+Lemma read_num_decimal_sci : forall D1 D2 sg es rest,
+  forallb is_digit D1 = true -> forallb is_digit D2 = true -> is_nil D1 && is_nil D2 = false ->
+  forallb is_digit es = true -> es <> [] -> hd_fails is_digit rest ->
+  (sg = [] \/ sg = [ch_plus] \/ sg = [ch_minus]) ->
+  read_num (D1 ++ ch_dot :: D2 ++ ch_e :: sg ++ es ++ rest)
+  = nres_of (List.length D1 + 1 + List.length D2 + (1 + List.length sg + List.length es))
+      (num_value D1 true D2 (Some (match sg with [c] => (c =? ch_minus)%N | _ => false end, es))).
+Proof.
+  intros D1 D2 sg es rest H1 H2 Hn He Hne Hr Hs. unfold read_num.
+  assert (Bw : based_window (D1 ++ ch_dot :: D2 ++ ch_e :: sg ++ es ++ rest) = false).
+  { destruct D1 as [|c0 [|c1 D1']]; [simpl; destruct (D2 ++ ch_e :: sg ++ es ++ rest) as [|c1 [|c2 r0]]; reflexivity| |].
+    - simpl. destruct (D2 ++ ch_e :: sg ++ es ++ rest); [reflexivity|]. rewrite andb_false_r. reflexivity.
+    - simpl in H1. nb. cbn [app based_window]. destruct (D1' ++ ch_dot :: D2 ++ ch_e :: sg ++ es ++ rest); [reflexivity|].
+      rewrite (digit_not_base _ H0). rewrite andb_false_r. reflexivity. }
+  rewrite Bw.
+  pose proof (read_dec_of_parts D1 true D2 (ch_e :: sg ++ es ++ rest) H1 H2 eq_refl
+                (fun F => ltac:(discriminate)) Hn) as E.
+  simpl app in E. rewrite E. unfold dec_result. rewrite (exp_match_of_parts sg es rest He Hne Hr Hs). reflexivity.
+Qed.
+
+(* based integers *)
+Lemma read_num_based : forall bc hs rest, is_base_char bc = true -> hs <> [] ->
+  forallb is_hex hs = true -> hd_fails is_hex rest ->
+  read_num (48%N :: bc :: hs ++ rest)
+  = if forallb (fun c => (hex_val c <? base_of bc)%Z) hs
+    then NOk (2 + List.length hs) (LInt (pos_value (base_of bc) (map hex_val hs)))
+    else NBad.
+Proof.
+  intros bc hs rest Hb Hn Hh Hr. unfold read_num.
+  destruct (read_based_of_parts bc hs rest Hb Hn Hh Hr) as [Bw E]. rewrite Bw, E.
+  destruct (forallb (fun c => (hex_val c <? base_of bc)%Z) hs) eqn:F.
+  - rewrite (horner_ok _ _ _ F). simpl. reflexivity.
+  - rewrite (horner_bad _ _ _ F). reflexivity.
+Qed.
+
 (* ================================================================== the lexer proper *)
 Section WithClasses.
   Variables isspace isalpha isnumeric : N -> bool.
@@ -1002,17 +1250,6 @@ Section WithClasses.
   Qed.
 
   (* ---------------------------------------------------------------- lexemes *)
-  Definition lexeme_ok (lex : text) (tg : tag) (v : tval) : Prop :=
-    match tg with
-    | TConst t => lex = t /\ In t ctoks /\ v = VNone
-    | TVar => v = VText lex /\ forallb ident_char lex = true
-              /\ exists c cs, lex = c :: cs /\ ident_start c = true
-    | TStr => exists body, lex = ch_quote :: body ++ [ch_quote] /\ v = VText body
-    | TInst => exists body, lex = ch_hash :: body ++ [ch_hash] /\ v = VText body /\ ~ In ch_hash body
-    | TNum => exists l, v = VLit l /\ read_num lex = NOk (List.length lex) l
-              \/ (exists l, v = VLit l /\ read_num (lex ++ [ch_dot; ch_dot]) = NOk (List.length lex) l)
-    end.
-
   Lemma firstn_S_nth : forall k (t : text) c, nth_error t k = Some c -> firstn (S k) t = firstn k t ++ [c].
   Proof.
     induction k as [|k IH]; intros t c H; destruct t as [|y t]; simpl in *; try discriminate.
@@ -1036,12 +1273,12 @@ Section WithClasses.
     { destruct (str_end t) as [k|] eqn:E; [|discriminate]. injection H as <- <- <-.
       apply N.eqb_eq in Eq; subst c. destruct (str_end_closed _ _ E) as (L & A & _).
       exists (firstn k t). split; [|reflexivity].
-      replace (k + 2) with (S (S k)) by lia. cbn [firstn]. rewrite (firstn_S_nth _ _ _ A). reflexivity. }
+      replace (k + 2) with (S (S k)) by lia. rewrite firstn_cons, (firstn_S_nth _ _ _ A). reflexivity. }
     destruct (c =? ch_hash)%N eqn:Eh.
     { destruct (inst_end t) as [k|] eqn:E; [|discriminate]. injection H as <- <- <-.
       apply N.eqb_eq in Eh; subst c. destruct (inst_end_closed _ _ E) as (L & A & NI & _).
       exists (firstn k t). split; [|split; [reflexivity|exact NI]].
-      replace (k + 2) with (S (S k)) by lia. cbn [firstn]. rewrite (firstn_S_nth _ _ _ A). reflexivity. }
+      replace (k + 2) with (S (S k)) by lia. rewrite firstn_cons, (firstn_S_nth _ _ _ A). reflexivity. }
     destruct (num_start isnumeric (c :: t)).
     { destruct (read_num (c :: t)) as [m l|] eqn:E; [|discriminate]. injection H as <- <- <-.
       exists l; split; reflexivity. }
@@ -1056,4 +1293,844 @@ Section WithClasses.
       + split; [exists c, (takew ident_char t); split; [reflexivity|exact Ei]|].
         cbn [skipn]. rewrite <- dropw_skipn. apply dropw_hd.
   Qed.
+
+  (* ---------------------------------------------------------------- tokenise: unfolding, fuel *)
+  Lemma toks_S : forall f off r, tk (S f) off r =
+    match dropw isspace r with
+    | [] => LOk []
+    | _ :: _ =>
+        match rd (dropw isspace r) with
+        | RErr e => LErr e (off + List.length (takew isspace r))
+        | RNone => LErr UnknownTokenError (off + List.length (takew isspace r))
+        | RTok tg n v =>
+            match tk f (off + List.length (takew isspace r) + n) (skipn n (dropw isspace r)) with
+            | LOk ts => LOk (mkTok tg (off + List.length (takew isspace r))
+                                   (off + List.length (takew isspace r) + n) v :: ts)
+            | LErr e j => LErr e j
+            end
+        end
+    end.
+  Proof. reflexivity. Qed.
+
+  Definition fuel_ok (res : lres (list token)) : Prop :=
+    match res with LErr LexOutOfFuel _ => False | _ => True end.
+
+  Lemma toks_fuel_enough : forall f off r, List.length r < f -> fuel_ok (tk f off r).
+  Proof.
+    induction f as [|f IH]; intros off r L; [lia|]. rewrite toks_S.
+    destruct (dropw isspace r) as [|c t] eqn:Ed; [exact I|].
+    destruct (rd (c :: t)) as [tg n v| |e] eqn:Er.
+    - pose proof (read_token_bounds _ _ _ _ Er) as [B1 B2].
+      assert (Lr : List.length (c :: t) <= List.length r).
+      { pose proof (takew_dropw isspace r) as Etd. rewrite Ed in Etd.
+        apply (f_equal (@List.length N)) in Etd. rewrite app_length in Etd. lia. }
+      specialize (IH (off + List.length (takew isspace r) + n) (skipn n (c :: t))).
+      rewrite skipn_length in IH. specialize (IH ltac:(lia)).
+      destruct (tk f _ (skipn n (c :: t))) as [ts|e j]; [exact I|]. destruct e; simpl in *; auto.
+    - exact I.
+    - unfold read_token in Er.
+      destruct (c =? ch_quote)%N; [destruct (str_end t); [discriminate|injection Er as <-; exact I]|].
+      destruct (c =? ch_hash)%N; [destruct (inst_end t); [discriminate|injection Er as <-; exact I]|].
+      destruct (num_start isnumeric (c :: t)); [destruct (read_num (c :: t)); [discriminate|injection Er as <-; exact I]|].
+      destruct (scn ctoks (c :: t)); [discriminate|]. destruct (ident_start c); discriminate.
+  Qed.
+
+  Lemma read_token_err_fuel : forall r e, rd r = RErr e -> e <> LexOutOfFuel.
+  Proof.
+    intros r e Er. unfold read_token in Er. destruct r as [|c t]; [discriminate|].
+    destruct (c =? ch_quote)%N; [destruct (str_end t); [discriminate|injection Er as <-; discriminate]|].
+    destruct (c =? ch_hash)%N; [destruct (inst_end t); [discriminate|injection Er as <-; discriminate]|].
+    destruct (num_start isnumeric (c :: t)); [destruct (read_num (c :: t)); [discriminate|injection Er as <-; discriminate]|].
+    destruct (scn ctoks (c :: t)); [discriminate|]. destruct (ident_start c); discriminate.
+  Qed.
+
+  (* more fuel never changes a result that is not "out of fuel" *)
+  Lemma toks_fuel_mono : forall f f' off r, fuel_ok (tk f off r) -> f <= f' -> tk f' off r = tk f off r.
+  Proof.
+    induction f as [|f IH]; intros f' off r Ho L; [simpl in Ho; contradiction|].
+    destruct f' as [|f']; [lia|]. rewrite !toks_S in *.
+    destruct (dropw isspace r) as [|c t]; [reflexivity|].
+    destruct (rd (c :: t)) as [tg n v| |e]; try reflexivity.
+    rewrite (IH f' _ _); [reflexivity| |lia].
+    destruct (tk f _ (skipn n (c :: t))) as [ts|e j]; [exact I|]. destruct e; simpl in *; auto.
+  Qed.
+
+  Definition shift_tok (d : nat) (t : token) : token :=
+    mkTok (t_tag t) (t_begin t + d) (t_end t + d) (t_val t).
+
+  Lemma toks_shift : forall f off r ts d, tk f off r = LOk ts ->
+    tk f (off + d) r = LOk (map (shift_tok d) ts).
+  Proof.
+    induction f as [|f IH]; intros off r ts d H; [discriminate|]. rewrite toks_S in *.
+    destruct (dropw isspace r) as [|c t]; [injection H as <-; reflexivity|].
+    destruct (rd (c :: t)) as [tg n v| |e]; try discriminate.
+    destruct (tk f (off + List.length (takew isspace r) + n) (skipn n (c :: t))) as [ts1|e j] eqn:E; [|discriminate].
+    injection H as <-.
+    replace (off + d + List.length (takew isspace r)) with (off + List.length (takew isspace r) + d) by lia.
+    replace (off + List.length (takew isspace r) + d + n) with (off + List.length (takew isspace r) + n + d) by lia.
+    rewrite (IH _ _ _ d E). reflexivity.
+  Qed.
+
+  (* ---------------------------------------------------------------- faithful segmentation *)
+  Definition sub (s : text) (a b : nat) : text := firstn (b - a) (skipn a s).
+  Definition all_ws (l : text) : Prop := Forall (fun c => isspace c = true) l.
+
+  Fixpoint spans_ok (pos fin : nat) (ts : list token) : Prop :=
+    match ts with
+    | [] => pos <= fin
+    | t :: ts' => pos <= t_begin t /\ t_begin t < t_end t /\ spans_ok (t_end t) fin ts'
+    end.
+  Fixpoint gaps_ws (s : text) (pos : nat) (ts : list token) : Prop :=
+    match ts with
+    | [] => all_ws (sub s pos (List.length s))
+    | t :: ts' => all_ws (sub s pos (t_begin t)) /\ gaps_ws s (t_end t) ts'
+    end.
+  Fixpoint reassemble (s : text) (pos : nat) (ts : list token) : text :=
+    match ts with
+    | [] => sub s pos (List.length s)
+    | t :: ts' => sub s pos (t_begin t) ++ sub s (t_begin t) (t_end t) ++ reassemble s (t_end t) ts'
+    end.
+  Definition token_at (s : text) (t : token) : Prop :=
+    rd (skipn (t_begin t) s) = RTok (t_tag t) (t_end t - t_begin t) (t_val t).
+
+  Lemma skipn_skipn' : forall (y x : nat) (l : text), skipn x (skipn y l) = skipn (x + y) l.
+  Proof.
+    induction y as [|y IH]; intros x l; [rewrite Nat.add_0_r; reflexivity|].
+    destruct l as [|c l]; [rewrite !skipn_nil; reflexivity|]. rewrite Nat.add_succ_r. simpl. apply IH.
+  Qed.
+  Lemma sub_skipn : forall (s : text) a b, a <= b -> sub s a b ++ skipn b s = skipn a s.
+  Proof.
+    intros s a b L. unfold sub. replace b with ((b - a) + a) at 2 by lia.
+    rewrite <- skipn_skipn'. apply firstn_skipn.
+  Qed.
+  Lemma spans_reassemble : forall s ts pos, spans_ok pos (List.length s) ts -> reassemble s pos ts = skipn pos s.
+  Proof.
+    intros s ts; induction ts as [|t ts IH]; intros pos H; simpl in *.
+    - unfold sub. apply firstn_all2. rewrite skipn_length. lia.
+    - destruct H as (H1 & H2 & H3). rewrite (IH _ H3). rewrite sub_skipn by lia. apply sub_skipn; exact H1.
+  Qed.
+  Lemma spans_ok_le : forall ts pos fin, spans_ok pos fin ts -> pos <= fin.
+  Proof.
+    induction ts as [|t ts IH]; intros pos fin H; simpl in *; [exact H|].
+    destruct H as (H1 & H2 & H3). specialize (IH _ _ H3). lia.
+  Qed.
+  Lemma forallb_all_ws : forall l, forallb isspace l = true -> all_ws l.
+  Proof. intros l H. unfold all_ws. rewrite Forall_forall. rewrite forallb_forall in H. exact H. Qed.
+
+  Lemma toks_faithful : forall f off r ts, tk f off r = LOk ts ->
+    forall pre, List.length pre = off ->
+    spans_ok off (List.length (pre ++ r)) ts /\ gaps_ws (pre ++ r) off ts
+    /\ Forall (token_at (pre ++ r)) ts.
+  Proof.
+    induction f as [|f IH]; intros off r ts H pre Hp; [discriminate|]. rewrite toks_S in H.
+    pose proof (takew_dropw isspace r) as Er. pose proof (takew_all isspace r) as HW0.
+    remember (takew isspace r) as W eqn:EW. remember (dropw isspace r) as r1 eqn:E1. clear EW E1.
+    assert (HW : all_ws W) by (apply forallb_all_ws; exact HW0).
+    destruct r1 as [|c t].
+    - injection H as <-. simpl. rewrite app_nil_r in Er. subst r.
+      split; [rewrite app_length; lia|]. split; [|constructor].
+      unfold sub. rewrite <- Hp, skipn_app_exact. rewrite firstn_all2; [exact HW|rewrite app_length; lia].
+    - destruct (rd (c :: t)) as [tg n v| |e] eqn:Et; try discriminate.
+      destruct (tk f (off + List.length W + n) (skipn n (c :: t))) as [ts1|e j] eqn:E; [|discriminate].
+      injection H as <-.
+      pose proof (read_token_bounds _ _ _ _ Et) as [B1 B2].
+      set (pre2 := pre ++ W ++ firstn n (c :: t)).
+      assert (Es : pre ++ r = pre2 ++ skipn n (c :: t)).
+      { unfold pre2. rewrite <- !app_assoc. rewrite firstn_skipn. rewrite <- Er. reflexivity. }
+      assert (Lp : List.length pre2 = off + List.length W + n).
+      { unfold pre2. rewrite !app_length, firstn_length_le by exact B2. lia. }
+      destruct (IH _ _ _ E pre2 Lp) as (S1 & S2 & S3). rewrite <- Es in *.
+      assert (Esk : skipn (off + List.length W) (pre ++ r) = c :: t).
+      { rewrite <- Er. rewrite app_assoc. rewrite <- Hp, <- app_length. apply skipn_app_exact. }
+      simpl. split; [|split].
+      + split; [lia|]. split; [lia|exact S1].
+      + split; [|exact S2]. unfold sub. rewrite <- Hp, skipn_app_exact.
+        replace (List.length pre + List.length W - List.length pre) with (List.length W) by lia.
+        rewrite <- Er. rewrite firstn_app_exact. exact HW.
+      + constructor; [|exact S3]. unfold token_at. simpl.
+        rewrite Esk. replace (off + List.length W + n - (off + List.length W)) with n by lia. exact Et.
+  Qed.
+
+  (* ---------------------------------------------------------------- error positions *)
+  Lemma toks_error_at : forall f off r e i, tk f off r = LErr e i -> e <> LexOutOfFuel ->
+    forall pre, List.length pre = off ->
+    off <= i < List.length (pre ++ r)
+    /\ (rd (skipn i (pre ++ r)) = RErr e \/ (rd (skipn i (pre ++ r)) = RNone /\ e = UnknownTokenError))
+    /\ hd_fails isspace (skipn i (pre ++ r)) /\ skipn i (pre ++ r) <> [].
+  Proof.
+    induction f as [|f IH]; intros off r e i H Hf pre Hp; [simpl in H; injection H as <- _; congruence|].
+    rewrite toks_S in H.
+    pose proof (takew_dropw isspace r) as Er. pose proof (dropw_hd isspace r) as Hh.
+    remember (takew isspace r) as W eqn:EW. remember (dropw isspace r) as r1 eqn:E1. clear EW E1.
+    destruct r1 as [|c t]; [discriminate|].
+    assert (Esk : skipn (off + List.length W) (pre ++ r) = c :: t).
+    { rewrite <- Er. rewrite app_assoc. rewrite <- Hp, <- app_length. apply skipn_app_exact. }
+    assert (Ll : off + List.length W < List.length (pre ++ r)).
+    { rewrite <- Er. rewrite !app_length. simpl. lia. }
+    destruct (rd (c :: t)) as [tg n v| |e0] eqn:Et.
+    - destruct (tk f (off + List.length W + n) (skipn n (c :: t))) as [ts1|e1 j] eqn:E; [discriminate|].
+      injection H as <- <-.
+      pose proof (read_token_bounds _ _ _ _ Et) as [B1 B2].
+      set (pre2 := pre ++ W ++ firstn n (c :: t)).
+      assert (Es : pre ++ r = pre2 ++ skipn n (c :: t)).
+      { unfold pre2. rewrite <- !app_assoc. rewrite firstn_skipn. rewrite <- Er. reflexivity. }
+      assert (Lp : List.length pre2 = off + List.length W + n).
+      { unfold pre2. rewrite !app_length, firstn_length_le by exact B2. lia. }
+      destruct (IH _ _ _ _ E Hf pre2 Lp) as (S1 & S2). rewrite <- Es in *. split; [lia|exact S2].
+    - injection H as <- <-. rewrite Esk. split; [lia|]. split; [right; split; [exact Et|reflexivity]|].
+      split; [exact Hh|discriminate].
+    - injection H as <- <-. rewrite Esk. split; [lia|]. split; [left; exact Et|].
+      split; [exact Hh|discriminate].
+  Qed.
+
+  Lemma read_token_unclosed : forall r,
+    (rd r = RErr UnclosedStringError -> exists t, r = ch_quote :: t /\ str_end t = None)
+    /\ (rd r = RErr UnclosedInstantError -> exists t, r = ch_hash :: t /\ ~ In ch_hash t).
+  Proof.
+    intro r. unfold read_token. destruct r as [|c t]; [split; discriminate|].
+    destruct (c =? ch_quote)%N eqn:Eq.
+    { apply N.eqb_eq in Eq; subst c. destruct (str_end t) eqn:E; split; try discriminate.
+      intros _. exists t; split; [reflexivity|exact E]. }
+    destruct (c =? ch_hash)%N eqn:Eh.
+    { apply N.eqb_eq in Eh; subst c. destruct (inst_end t) eqn:E; split; try discriminate.
+      intros _. exists t; split; [reflexivity|apply inst_end_none; exact E]. }
+    destruct (num_start isnumeric (c :: t)); [destruct (read_num (c :: t)); split; discriminate|].
+    destruct (scn ctoks (c :: t)); [split; discriminate|]. destruct (ident_start c); split; discriminate.
+  Qed.
+
+  (* one step of the loop, forwards *)
+  Lemma toks_step : forall f off W r1 tg n v, forallb isspace W = true -> hd_fails isspace r1 ->
+    r1 <> [] -> rd r1 = RTok tg n v ->
+    tk (S f) off (W ++ r1) =
+      match tk f (off + List.length W + n) (skipn n r1) with
+      | LOk ts => LOk (mkTok tg (off + List.length W) (off + List.length W + n) v :: ts)
+      | LErr e j => LErr e j
+      end.
+  Proof.
+    intros f off W r1 tg n v HW Hh Hn Hr. rewrite toks_S.
+    destruct (takew_app_stop isspace W r1 HW Hh) as [E1 E2]. rewrite E1, E2.
+    destruct r1 as [|c t]; [congruence|]. rewrite Hr. reflexivity.
+  Qed.
+  Lemma toks_step0 : forall f off r1 tg n v, hd_fails isspace r1 -> r1 <> [] -> rd r1 = RTok tg n v ->
+    tk (S f) off r1 =
+      match tk f (off + n) (skipn n r1) with
+      | LOk ts => LOk (mkTok tg off (off + n) v :: ts)
+      | LErr e j => LErr e j
+      end.
+  Proof.
+    intros f off r1 tg n v Hh Hn Hr.
+    pose proof (toks_step f off [] r1 tg n v eq_refl Hh Hn Hr) as E. simpl in E.
+    rewrite Nat.add_0_r in E. exact E.
+  Qed.
+  Lemma toks_step_err : forall f off W r1 e, forallb isspace W = true -> hd_fails isspace r1 ->
+    r1 <> [] -> rd r1 = RErr e -> tk (S f) off (W ++ r1) = LErr e (off + List.length W).
+  Proof.
+    intros f off W r1 e HW Hh Hn Hr. rewrite toks_S.
+    destruct (takew_app_stop isspace W r1 HW Hh) as [E1 E2]. rewrite E1, E2.
+    destruct r1 as [|c t]; [congruence|]. rewrite Hr. reflexivity.
+  Qed.
+  Lemma toks_end : forall f off W, forallb isspace W = true -> tk (S f) off W = LOk [].
+  Proof.
+    intros f off W HW. rewrite toks_S.
+    destruct (takew_app_stop isspace W [] HW I) as [_ E2]. rewrite app_nil_r in E2. rewrite E2. reflexivity.
+  Qed.
+
+
+  (* ---------------------------------------------------------------- whitespace insertion *)
+  Hypothesis Hrange : hd_error ctoks = Some [ch_dot; ch_dot].
+
+  (* a position q lies in a gap: before the first token, between two tokens, after the last *)
+  Fixpoint in_gap (pos : nat) (ts : list token) (fin : nat) (q : nat) : Prop :=
+    match ts with
+    | [] => pos <= q <= fin
+    | t :: ts' => (pos <= q <= t_begin t) \/ in_gap (t_end t) ts' fin q
+    end.
+  Definition untag (t : token) : tag * tval := (t_tag t, t_val t).
+
+  Lemma in_gap_ge : forall ts pos fin q, spans_ok pos fin ts -> in_gap pos ts fin q -> pos <= q <= fin.
+  Proof.
+    induction ts as [|t ts IH]; intros pos fin q Hs H; simpl in *; [exact H|].
+    destruct Hs as (S1 & S2 & S3). pose proof (spans_ok_le _ _ _ S3).
+    destruct H as [H|H]; [lia|]. specialize (IH _ _ _ S3 H). lia.
+  Qed.
+
+  Lemma sig_dot : sigc ch_dot = true.
+  Proof. unfold sig_char. simpl. reflexivity. Qed.
+
+  Lemma read_token_dotdot : forall y, rd (ch_dot :: ch_dot :: y) = RTok (TConst [ch_dot; ch_dot]) 2 VNone.
+  Proof.
+    intro y. unfold read_token. simpl (ch_dot =? ch_quote)%N. simpl (ch_dot =? ch_hash)%N. cbv iota.
+    unfold num_start. rewrite cls_dot. simpl.
+    assert (Ec : exists tl, ctoks = [ch_dot; ch_dot] :: tl).
+    { clear -Hrange. destruct ctoks as [|t0 tl]; [discriminate|]. simpl in Hrange. injection Hrange as ->. exists tl; reflexivity. }
+    destruct Ec as [tl Ec].
+    assert (Hin : In [ch_dot; ch_dot] ctoks) by (rewrite Ec; left; reflexivity).
+    pose proof (tok_alpha _ Hin) as Ma. simpl in Ma.
+    rewrite Ec. simpl scan. unfold entry_hit. rewrite Ma. simpl. reflexivity.
+  Qed.
+
+  Lemma toks_ok_nxt : forall f off b ts, tk f off b = LOk ts -> nxt_ok b.
+  Proof.
+    intros f off b ts H. destruct b as [|z b']; [exact I|]. simpl. intro Az.
+    destruct f as [|f]; [discriminate|]. rewrite toks_S in H.
+    destruct (isspace z) eqn:Sz; [destruct (cls_ws _ Sz) as (_ & F & _); congruence|].
+    assert (Ed : dropw isspace (z :: b') = z :: b') by (simpl; rewrite Sz; reflexivity).
+    rewrite Ed in H. destruct (rd (z :: b')) as [tg n v| |e] eqn:Er; try discriminate.
+    apply cls_sig_alpha; [exact (read_token_sig _ _ _ _ _ Er)|exact Az].
+  Qed.
+
+  Lemma toks_ins1 : forall f off r ts, tk f off r = LOk ts ->
+    forall a b w, r = a ++ b -> isspace w = true ->
+    in_gap off ts (off + List.length r) (off + List.length a) ->
+    exists ts', tk (S f) off (a ++ w :: b) = LOk ts' /\ map untag ts' = map untag ts
+                /\ in_gap off ts' (off + S (List.length r)) (off + List.length a).
+  Proof.
+    induction f as [|f IH]; intros off r ts H a b w Hr Hw Hg; [discriminate|].
+    pose proof H as H0. rewrite toks_S in H.
+    pose proof (takew_dropw isspace r) as Er. pose proof (takew_all isspace r) as HW.
+    pose proof (dropw_hd isspace r) as Hh.
+    remember (takew isspace r) as W eqn:EW. remember (dropw isspace r) as r1 eqn:E1. clear EW E1.
+    destruct (le_lt_dec (List.length a) (List.length W)) as [La|La].
+    - (* the character goes into the leading gap *)
+      assert (Esp : exists W2, W = a ++ W2 /\ b = W2 ++ r1).
+      { rewrite Hr in Er. symmetry in Er. destruct (app_split_le a b W r1 Er La) as (W2 & A & B).
+        exists W2; split; assumption. }
+      destruct Esp as (W2 & EW & Eb).
+      assert (HW' : forallb isspace (a ++ w :: W2) = true).
+      { rewrite EW in HW. rewrite forallb_app in *. apply andb_true_iff in HW. destruct HW as [A B].
+        rewrite A. simpl. rewrite Hw, B. reflexivity. }
+      assert (Er' : a ++ w :: b = (a ++ w :: W2) ++ r1) by (rewrite Eb, <- app_assoc; reflexivity).
+      assert (Lw : List.length (a ++ w :: W2) = S (List.length W)).
+      { rewrite EW, !app_length. simpl. lia. }
+      destruct r1 as [|c t].
+      + injection H as <-. exists []. rewrite Er', app_nil_r. rewrite (toks_end _ _ _ HW').
+        split; [reflexivity|]. split; [reflexivity|]. simpl in *. lia.
+      + destruct (rd (c :: t)) as [tg n v| |e] eqn:Et; try discriminate.
+        destruct (tk f (off + List.length W + n) (skipn n (c :: t))) as [ts1|e j] eqn:E; [|discriminate].
+        injection H as <-.
+        rewrite Er'. rewrite (toks_step (S f) off (a ++ w :: W2) (c :: t) tg n v HW' Hh ltac:(discriminate) Et).
+        rewrite Lw.
+        assert (E' : tk (S f) (off + S (List.length W) + n) (skipn n (c :: t)) = LOk (map (shift_tok 1) ts1)).
+        { replace (off + S (List.length W) + n) with (off + List.length W + n + 1) by lia.
+          apply toks_shift. rewrite (toks_fuel_mono f (S f)); [exact E| |lia]. rewrite E. exact I. }
+        rewrite E'. eexists. split; [reflexivity|]. split.
+        * simpl. f_equal. rewrite map_map. apply map_ext. intro t0. reflexivity.
+        * simpl. left. lia.
+    - (* the character goes after the first token *)
+      destruct r1 as [|c t].
+      { exfalso. rewrite app_nil_r in Er. rewrite Hr in Er. apply (f_equal (@List.length N)) in Er.
+        rewrite app_length in Er. lia. }
+      destruct (rd (c :: t)) as [tg n v| |e] eqn:Et; try discriminate.
+      destruct (tk f (off + List.length W + n) (skipn n (c :: t))) as [ts1|e j] eqn:E; [|discriminate].
+      injection H as <-.
+      pose proof (read_token_bounds _ _ _ _ Et) as [B1 B2].
+      destruct (toks_faithful _ _ _ _ H0 (repeat 0%N off) (repeat_length _ _)) as (Sp & _ & _).
+      simpl in Sp. destruct Sp as (_ & _ & Sp).
+      simpl in Hg. destruct Hg as [Hg|Hg]; [lia|].
+      assert (Lq : off + List.length W + n <= off + List.length a).
+      { rewrite app_length, repeat_length in Sp.
+        replace (off + List.length r) with (off + List.length r) in Hg by reflexivity.
+        pose proof (in_gap_ge _ _ _ _ Sp Hg). lia. }
+      assert (Esp : exists a1, a = W ++ a1 /\ c :: t = a1 ++ b).
+      { rewrite Hr in Er. destruct (app_split_le W (c :: t) a b Er) as (a1 & A & B); [lia|].
+        exists a1; split; assumption. }
+      destruct Esp as (a1 & Ea & Ect).
+      assert (La1 : n <= List.length a1) by (rewrite Ea, app_length in Lq; lia).
+      assert (Hh' : hd_fails isspace (a1 ++ w :: b)).
+      { destruct a1 as [|z a2]; [simpl in La1; lia|]. simpl in *. injection Ect as <- _. exact Hh. }
+      assert (Hne1 : a1 ++ w :: b <> []) by (destruct a1; discriminate).
+      assert (Esk : skipn n (c :: t) = skipn n a1 ++ b).
+      { rewrite Ect. rewrite skipn_app. replace (n - List.length a1) with 0 by lia. reflexivity. }
+      assert (Et' : rd (a1 ++ w :: b) = RTok tg n v).
+      { rewrite Ect in Et. apply (read_token_ins a1 b w b tg n v Hw Et La1).
+        - intro El. rewrite Esk in E. rewrite <- El in E. rewrite skipn_all in E. simpl in E.
+          exact (toks_ok_nxt _ _ _ _ E).
+        - intros -> El Hsd. destruct (starts_dot b) eqn:Sb; [exfalso|reflexivity].
+          (* then the rest is ".." and the position is inside that token *)
+          assert (Ea2 : skipn n a1 = [ch_dot]).
+          { assert (L1 : List.length (skipn n a1) = 1) by (rewrite skipn_length; lia).
+            destruct (skipn n a1) as [|z [|z2 l]]; simpl in L1; try lia.
+            simpl in Hsd. apply N.eqb_eq in Hsd. subst z. reflexivity. }
+          destruct b as [|z b']; [discriminate|]. simpl in Sb. apply N.eqb_eq in Sb. subst z.
+          rewrite Esk, Ea2 in E. simpl app in E.
+          destruct f as [|f0]; [discriminate|].
+          assert (Hd1 : hd_fails isspace (ch_dot :: ch_dot :: b')) by (simpl; apply sig_not_ws, sig_dot).
+          pose proof (toks_step f0 (off + List.length W + n) [] (ch_dot :: ch_dot :: b') _ _ _ eq_refl Hd1
+                        ltac:(discriminate) (read_token_dotdot b')) as Es.
+          simpl app in Es. rewrite Es in E. simpl in E.
+          destruct (tk f0 _ b') as [ts2|e2 j2] eqn:E2; [|discriminate]. injection E as <-.
+          simpl in Hg. rewrite Ea, app_length in Hg.
+          assert (Sp2 := Sp). simpl in Sp2. destruct Sp2 as (_ & _ & Sp2).
+          rewrite app_length, repeat_length in Sp2.
+          destruct Hg as [Hg|Hg]; [lia|]. pose proof (in_gap_ge _ _ _ _ Sp2 Hg). lia. }
+      rewrite Ea. rewrite <- app_assoc.
+      rewrite (toks_step (S f) off W (a1 ++ w :: b) tg n v HW Hh' Hne1 Et').
+      assert (Esk' : skipn n (a1 ++ w :: b) = skipn n a1 ++ w :: b).
+      { rewrite skipn_app. replace (n - List.length a1) with 0 by lia. reflexivity. }
+      rewrite Esk'.
+      assert (Lr : List.length r = List.length W + List.length (c :: t)) by (rewrite <- Er, app_length; reflexivity).
+      assert (Lsk : List.length (skipn n a1 ++ b) = List.length (c :: t) - n) by (rewrite <- Esk, skipn_length; reflexivity).
+      assert (La' : List.length a = List.length W + List.length a1) by (rewrite Ea, app_length; reflexivity).
+      assert (Lsa : List.length (skipn n a1) = List.length a1 - n) by apply skipn_length.
+      assert (Hg' : in_gap (off + List.length W + n) ts1
+                      (off + List.length W + n + List.length (skipn n a1 ++ b))
+                      (off + List.length W + n + List.length (skipn n a1))).
+      { replace (off + List.length W + n + List.length (skipn n a1 ++ b)) with (off + List.length r) by lia.
+        replace (off + List.length W + n + List.length (skipn n a1)) with (off + List.length a) by lia.
+        exact Hg. }
+      rewrite Esk in E.
+      destruct (IH _ _ _ E (skipn n a1) b w eq_refl Hw Hg') as (ts1' & T1 & T2 & T3).
+      rewrite T1. eexists. split; [reflexivity|]. split; [simpl; f_equal; exact T2|].
+      rewrite <- Ea. simpl. right.
+      replace (off + S (List.length r)) with (off + List.length W + n + S (List.length (skipn n a1 ++ b))) by lia.
+      replace (off + List.length a) with (off + List.length W + n + List.length (skipn n a1)) by lia.
+      exact T3.
+  Qed.
+
+
+  (* ---------------------------------------------------------------- tokenise: the theorems *)
+  Notation tokz := (tokenise isspace isalpha isnumeric ctoks atoks).
+
+  Lemma cls_start_not_numeric : forall c, ident_start c = true -> isnumeric c = false.
+  Proof.
+    intros c H. specialize (Hclass c). unfold class_ok_b in Hclass. rewrite H in Hclass.
+    destruct (isnumeric c); [|reflexivity]. simpl in Hclass. rewrite !andb_false_r in Hclass.
+    rewrite ?andb_false_l in Hclass. discriminate.
+  Qed.
+
+  Lemma tokenise_fuel : forall s, fuel_ok (tokz s).
+  Proof. intro s. unfold tokenise. apply toks_fuel_enough. lia. Qed.
+  Lemma tokenise_never_out_of_fuel : forall s i, tokz s <> LErr LexOutOfFuel i.
+  Proof. intros s i H. pose proof (tokenise_fuel s) as F. rewrite H in F. exact F. Qed.
+
+  Lemma spans_ok_each : forall ts pos fin, spans_ok pos fin ts ->
+    Forall (fun t => pos <= t_begin t /\ t_begin t < t_end t /\ t_end t <= fin) ts.
+  Proof.
+    induction ts as [|t ts IH]; intros pos fin H; [constructor|]. simpl in H. destruct H as (H1 & H2 & H3).
+    pose proof (spans_ok_le _ _ _ H3). constructor; [lia|].
+    specialize (IH _ _ H3). rewrite Forall_forall in *. intros x Hx. specialize (IH x Hx). lia.
+  Qed.
+
+  Theorem tokenise_faithful : forall s ts, tokz s = LOk ts ->
+    spans_ok 0 (List.length s) ts /\ gaps_ws s 0 ts /\ reassemble s 0 ts = s
+    /\ Forall (token_at s) ts.
+  Proof.
+    intros s ts H. unfold tokenise in H.
+    destruct (toks_faithful _ _ _ _ H [] eq_refl) as (A & B & Cc). simpl in *.
+    split; [exact A|]. split; [exact B|]. split; [|exact Cc]. apply (spans_reassemble s ts 0 A).
+  Qed.
+
+  Definition lexeme_ok (lex : text) (tg : tag) (v : tval) : Prop :=
+    match tg with
+    | TConst t => lex = t /\ In t ctoks /\ v = VNone
+    | TVar => v = VText lex /\ forallb ident_char lex = true
+              /\ exists c cs, lex = c :: cs /\ ident_start c = true
+    | TStr => exists body, lex = ch_quote :: body ++ [ch_quote] /\ v = VText body
+    | TInst => exists body, lex = ch_hash :: body ++ [ch_hash] /\ v = VText body /\ ~ In ch_hash body
+    | TNum => exists l, v = VLit l
+    end.
+
+  Theorem tokenise_lexemes : forall s ts t, tokz s = LOk ts -> In t ts ->
+    lexeme_ok (sub s (t_begin t) (t_end t)) (t_tag t) (t_val t).
+  Proof.
+    intros s ts t H Ht. destruct (tokenise_faithful _ _ H) as (_ & _ & _ & F).
+    rewrite Forall_forall in F. specialize (F _ Ht). unfold token_at in F.
+    pose proof (read_token_lexeme_basic _ _ _ _ F) as L. unfold sub, lexeme_ok.
+    destruct (t_tag t); try exact L.
+    - destruct L as (l & E & _). exists l; exact E.
+    - destruct L as (A & B & Cc & _). auto.
+  Qed.
+
+  (* maximal munch, per token of a tokenisation *)
+  Theorem tokenise_maximal_munch : forall s ts t, tokz s = LOk ts -> In t ts ->
+    (t_tag t = TVar -> hd_fails ident_char (skipn (t_end t) s))
+    /\ (t_tag t = TNum -> hd_fails is_digit (skipn (t_end t) s)).
+  Proof.
+    intros s ts t H Ht. destruct (tokenise_faithful _ _ H) as (Sp & _ & _ & F).
+    pose proof (spans_ok_each _ _ _ Sp) as Se. rewrite Forall_forall in F, Se.
+    specialize (F _ Ht). specialize (Se _ Ht). unfold token_at in F.
+    assert (Esk : skipn (t_end t) s = skipn (t_end t - t_begin t) (skipn (t_begin t) s)).
+    { rewrite skipn_skipn'. f_equal. lia. }
+    rewrite Esk. split; intro Tg; rewrite Tg in F.
+    - pose proof (read_token_lexeme_basic _ _ _ _ F) as L. simpl in L. tauto.
+    - pose proof (read_token_lexeme_basic _ _ _ _ F) as L. simpl in L. destruct L as (l & _ & Rn).
+      exact (proj2 (read_num_bounds _ _ _ Rn)).
+  Qed.
+
+  (* --- whitespace insertion --- *)
+  Theorem tokenise_ws_insert1 : forall s ts a b w, tokz s = LOk ts -> s = a ++ b ->
+    in_gap 0 ts (List.length s) (List.length a) -> isspace w = true ->
+    exists ts', tokz (a ++ w :: b) = LOk ts' /\ map untag ts' = map untag ts
+                /\ in_gap 0 ts' (S (List.length s)) (List.length a).
+  Proof.
+    intros s ts a b w H Hs Hg Hw. unfold tokenise in *.
+    destruct (toks_ins1 _ _ _ _ H a b w Hs Hw Hg) as (ts' & A & B & Cc).
+    exists ts'. split; [|split; [exact B|exact Cc]].
+    replace (List.length (a ++ w :: b)) with (S (List.length s)); [exact A|].
+    rewrite Hs, !app_length. simpl. lia.
+  Qed.
+
+  Theorem tokenise_ws_insert : forall ws s ts a b, tokz s = LOk ts -> s = a ++ b ->
+    in_gap 0 ts (List.length s) (List.length a) -> Forall (fun c => isspace c = true) ws ->
+    exists ts', tokz (a ++ ws ++ b) = LOk ts' /\ map untag ts' = map untag ts
+                /\ in_gap 0 ts' (List.length ws + List.length s) (List.length a).
+  Proof.
+    induction ws as [|w ws IH]; intros s ts a b H Hs Hg Hw.
+    - exists ts. simpl. rewrite <- Hs. auto.
+    - inversion Hw as [|? ? Hw1 Hw2]; subst.
+      destruct (IH _ _ a b H eq_refl Hg Hw2) as (ts1 & A1 & B1 & C1).
+      assert (El : List.length (a ++ ws ++ b) = List.length ws + List.length (a ++ b))
+        by (rewrite !app_length; lia).
+      rewrite <- El in C1.
+      destruct (tokenise_ws_insert1 _ _ a (ws ++ b) w A1 eq_refl C1 Hw1) as (ts2 & A2 & B2 & C2).
+      exists ts2. split; [exact A2|]. split; [rewrite B2; exact B1|].
+      rewrite El in C2. simpl. exact C2.
+  Qed.
+
+  (* any number of insertions, each at a gap of the tokenisation current at that moment *)
+  Inductive ws_steps : text -> text -> Prop :=
+  | ws_refl : forall s, ws_steps s s
+  | ws_step : forall s ts a b ws s', tokz s = LOk ts -> s = a ++ b ->
+      in_gap 0 ts (List.length s) (List.length a) -> Forall (fun c => isspace c = true) ws ->
+      ws_steps (a ++ ws ++ b) s' -> ws_steps s s'.
+
+  Theorem tokenise_ws_steps : forall s s', ws_steps s s' -> forall ts, tokz s = LOk ts ->
+    exists ts', tokz s' = LOk ts' /\ map untag ts' = map untag ts.
+  Proof.
+    intros s s' H; induction H as [s|s ts0 a b ws s' H0 Hs Hg Hw _ IH]; intros ts Ht.
+    - exists ts; auto.
+    - rewrite H0 in Ht. injection Ht as <-.
+      destruct (tokenise_ws_insert ws s ts0 a b H0 Hs Hg Hw) as (ts1 & A & B & _).
+      destruct (IH _ A) as (ts2 & A2 & B2). exists ts2. split; [exact A2|]. rewrite B2; exact B.
+  Qed.
+
+  (* --- unclosed delimiters --- *)
+  Lemma skipn_cons_nth : forall i (s : text) c t, skipn i s = c :: t -> nth_error s i = Some c /\ skipn (S i) s = t.
+  Proof.
+    induction i as [|i IH]; intros s c t H; destruct s as [|y s]; simpl in *; try discriminate.
+    - injection H as -> ->. auto.
+    - apply IH; exact H.
+  Qed.
+
+  Theorem tokenise_unclosed_string : forall s i, tokz s = LErr UnclosedStringError i ->
+    nth_error s i = Some ch_quote /\ str_end (skipn (S i) s) = None.
+  Proof.
+    intros s i H. unfold tokenise in H.
+    destruct (toks_error_at _ _ _ _ _ H ltac:(discriminate) [] eq_refl) as (_ & [E|[_ E]] & _); [|discriminate].
+    simpl in E. destruct (proj1 (read_token_unclosed _) E) as (t & Et & En).
+    destruct (skipn_cons_nth _ _ _ _ Et) as [A B]. rewrite B. auto.
+  Qed.
+  Theorem tokenise_unclosed_instant : forall s i, tokz s = LErr UnclosedInstantError i ->
+    nth_error s i = Some ch_hash /\ ~ In ch_hash (skipn (S i) s).
+  Proof.
+    intros s i H. unfold tokenise in H.
+    destruct (toks_error_at _ _ _ _ _ H ltac:(discriminate) [] eq_refl) as (_ & [E|[_ E]] & _); [|discriminate].
+    simpl in E. destruct (proj2 (read_token_unclosed _) E) as (t & Et & En).
+    destruct (skipn_cons_nth _ _ _ _ Et) as [A B]. rewrite B. auto.
+  Qed.
+
+  Lemma sig_quote : sigc ch_quote = true. Proof. reflexivity. Qed.
+  Lemma sig_hash : sigc ch_hash = true. Proof. reflexivity. Qed.
+
+  (* an opening delimiter without a closing one is reported at its own index, whatever
+     whitespace precedes it *)
+  Theorem tokenise_reports_unclosed : forall W t, Forall (fun c => isspace c = true) W ->
+    (str_end t = None -> tokz (W ++ ch_quote :: t) = LErr UnclosedStringError (List.length W))
+    /\ (~ In ch_hash t -> tokz (W ++ ch_hash :: t) = LErr UnclosedInstantError (List.length W)).
+  Proof.
+    intros W t HW. assert (HW' : forallb isspace W = true).
+    { rewrite forallb_forall. rewrite Forall_forall in HW. exact HW. }
+    split; intro Hn; unfold tokenise.
+    - apply (toks_step_err _ 0 W (ch_quote :: t) _ HW'); [simpl; apply sig_not_ws, sig_quote|discriminate|].
+      unfold read_token. simpl (ch_quote =? ch_quote)%N. cbv iota. rewrite Hn. reflexivity.
+    - apply (toks_step_err _ 0 W (ch_hash :: t) _ HW'); [simpl; apply sig_not_ws, sig_hash|discriminate|].
+      unfold read_token. simpl (ch_hash =? ch_quote)%N. simpl (ch_hash =? ch_hash)%N. cbv iota.
+      rewrite (proj2 (inst_end_none t) Hn). reflexivity.
+  Qed.
+
+  (* --- numbers as tokens; the range --- *)
+  Lemma read_token_num : forall c t n v, is_digit c = true -> read_num (c :: t) = NOk n v ->
+    rd (c :: t) = RTok TNum n (VLit v).
+  Proof.
+    intros c t n v Hc H. unfold read_token.
+    assert (c <> ch_quote /\ c <> ch_hash) as [N1 N2]
+      by (apply digit_range in Hc; unfold ch_quote, ch_hash; split; lia).
+    apply N.eqb_neq in N1, N2. rewrite N1, N2. unfold num_start. rewrite (cls_digit _ Hc). simpl. rewrite H. reflexivity.
+  Qed.
+  Lemma digit_not_ws : forall c, is_digit c = true -> isspace c = false.
+  Proof. intros c H. apply sig_not_ws, sig_ident, digit_ident; exact H. Qed.
+
+  Theorem tokenise_range : forall A B, forallb is_digit A = true -> A <> [] ->
+    forallb is_digit B = true -> B <> [] ->
+    tokz (A ++ [ch_dot; ch_dot] ++ B)
+    = LOk [ mkTok TNum 0 (List.length A) (VLit (LInt (pos_value 10 (map dval A))));
+            mkTok (TConst [ch_dot; ch_dot]) (List.length A) (List.length A + 2) VNone;
+            mkTok TNum (List.length A + 2) (List.length A + 2 + List.length B)
+                  (VLit (LInt (pos_value 10 (map dval B)))) ].
+  Proof.
+    intros A B HA HnA HB HnB. unfold tokenise.
+    assert (Lf : exists f, S (List.length (A ++ [ch_dot; ch_dot] ++ B)) = S (S (S (S f)))).
+    { destruct A as [|a0 A']; [congruence|]. destruct B as [|b0 B']; [congruence|].
+      exists (List.length A' + List.length B' + 1). rewrite !app_length. simpl. lia. }
+    destruct Lf as [f ->].
+    destruct A as [|a0 A'] eqn:EA; [congruence|]. rewrite <- EA in *.
+    assert (Ha0 : is_digit a0 = true) by (rewrite EA in HA; simpl in HA; nb; assumption).
+    (* first token *)
+    assert (R1 : rd (A ++ [ch_dot; ch_dot] ++ B) = RTok TNum (List.length A) (VLit (LInt (pos_value 10 (map dval A))))).
+    { pose proof (read_num_range A B HA HnA) as E. rewrite EA in *. apply (read_token_num a0 _ _ _ Ha0 E). }
+    assert (Hh1 : hd_fails isspace (A ++ [ch_dot; ch_dot] ++ B)) by (rewrite EA; simpl; apply digit_not_ws; exact Ha0).
+    assert (Hn1 : A ++ [ch_dot; ch_dot] ++ B <> []) by (rewrite EA; discriminate).
+    rewrite (toks_step0 _ 0 _ _ _ _ Hh1 Hn1 R1).
+    rewrite skipn_app_exact. simpl plus.
+    (* ".." *)
+    assert (Hh2 : hd_fails isspace (ch_dot :: ch_dot :: B)) by (simpl; apply sig_not_ws, sig_dot).
+    assert (Hn2 : ch_dot :: ch_dot :: B <> []) by discriminate.
+    simpl app. rewrite (toks_step0 _ (List.length A) _ _ _ _ Hh2 Hn2 (read_token_dotdot B)).
+    simpl skipn.
+    (* second number *)
+    destruct B as [|b0 B'] eqn:EB; [congruence|]. rewrite <- EB in *.
+    assert (Hb0 : is_digit b0 = true) by (rewrite EB in HB; simpl in HB; nb; assumption).
+    assert (R3 : rd B = RTok TNum (List.length B) (VLit (LInt (pos_value 10 (map dval B))))).
+    { pose proof (read_num_int B [] HB HnB) as E. rewrite app_nil_r in E.
+      rewrite EB in *. apply (read_token_num b0 _ _ _ Hb0). apply E; try reflexivity; try exact I.
+      rewrite <- (app_nil_r (b0 :: B')). apply digits_not_based; [exact HB|discriminate|exact I]. }
+    assert (Hh3 : hd_fails isspace B) by (rewrite EB; simpl; apply digit_not_ws; exact Hb0).
+    assert (Hn3 : B <> []) by (rewrite EB; discriminate).
+    rewrite (toks_step0 _ (List.length A + 2) _ _ _ _ Hh3 Hn3 R3).
+    rewrite skipn_all.
+    rewrite (toks_end f _ [] eq_refl). reflexivity.
+  Qed.
+
+  (* --- keywords --- *)
+  (* [kw] is an alphabetic token whose scan behaves as the table facts say: it is the scan's
+     answer exactly when no letter follows, and nothing else in the table matches there *)
+  Theorem read_token_keyword : forall kw rest,
+    kw <> [] -> forallb is_letter kw = true ->
+    scn ctoks (kw ++ rest) = (if next_not_alpha isalpha rest then Some kw else None) ->
+    (next_not_alpha isalpha rest = true -> rd (kw ++ rest) = RTok (TConst kw) (List.length kw) VNone)
+    /\ (next_not_alpha isalpha rest = false ->
+          rd (kw ++ rest) = RTok TVar (List.length kw + List.length (takew ident_char rest))
+                                 (VText (kw ++ takew ident_char rest))
+          /\ (forall c x, rest = c :: x -> ident_char c = true ->
+                List.length kw < List.length kw + List.length (takew ident_char rest))).
+  Proof.
+    intros kw rest Hn Hl Hs. destruct kw as [|c kw']; [congruence|].
+    simpl in Hl. apply andb_true_iff in Hl. destruct Hl as [Lc Lk].
+    assert (Hid : forallb ident_char kw' = true).
+    { rewrite forallb_forall in *. intros z Hz. apply letter_ident, Lk, Hz. }
+    assert (Is : ident_start c = true) by (unfold ident_start; rewrite Lc; reflexivity).
+    assert (c <> ch_quote /\ c <> ch_hash /\ c <> ch_dot) as (N1 & N2 & N3).
+    { unfold is_letter, is_lower, is_upper in Lc. unfold ch_quote, ch_hash, ch_dot.
+      apply orb_true_iff in Lc. destruct Lc as [Lc|Lc]; nb; repeat split; lia. }
+    apply N.eqb_neq in N1, N2, N3.
+    assert (Ns : num_start isnumeric ((c :: kw') ++ rest) = false).
+    { simpl. rewrite (cls_start_not_numeric _ Is), N3. reflexivity. }
+    change ((c :: kw') ++ rest) with (c :: (kw' ++ rest)) in *.
+    split; intro Hna; rewrite Hna in Hs.
+    - unfold read_token. rewrite N1, N2, Ns, Hs. reflexivity.
+    - split.
+      + unfold read_token. rewrite N1, N2, Ns, Hs, Is.
+        rewrite (takew_ge ident_char kw' rest Hid). rewrite app_length. simpl. reflexivity.
+      + intros z x -> Hz. simpl. rewrite Hz. simpl. lia.
+  Qed.
+
 End WithClasses.
+
+
+(* ================================================================== statements for C11.v *)
+(* what may follow an integer literal for it to stand alone: nothing, or a character that
+   cannot continue a number (digit, '.', 'e', or a base letter after a lone 0) *)
+Definition number_stop (rest : text) : Prop :=
+  match rest with
+  | [] => True
+  | c :: _ => is_digit c = false /\ c <> ch_dot /\ c <> ch_e /\ is_base_char c = false
+  end.
+
+Theorem int_value : forall A rest, forallb is_digit A = true -> A <> [] -> number_stop rest ->
+  read_num (A ++ rest) = NOk (List.length A) (LInt (pos_value 10 (map dval A))).
+Proof.
+  intros A rest HA Hn Hs. apply read_num_int; try assumption.
+  - apply digits_not_based; try assumption. destruct rest; [exact I|]. simpl in Hs. tauto.
+  - destruct rest; [exact I|]. simpl in *. tauto.
+  - destruct rest; [reflexivity|]. simpl in *. apply N.eqb_neq. tauto.
+  - destruct rest as [|c r]; [reflexivity|]. simpl in Hs. apply exp_match_ne. apply N.eqb_neq. tauto.
+Qed.
+
+Definition sign_ok (sg : text) : Prop := sg = [] \/ sg = [ch_plus] \/ sg = [ch_minus].
+Definition sign_neg (sg : text) : bool := match sg with [c] => (c =? ch_minus)%N | _ => false end.
+
+Theorem sci_value : forall A sg es rest, forallb is_digit A = true -> A <> [] ->
+  forallb is_digit es = true -> es <> [] -> hd_fails is_digit rest -> sign_ok sg ->
+  exists v, read_num (A ++ ch_e :: sg ++ es ++ rest)
+            = NOk (List.length A + (1 + List.length sg + List.length es)) v
+    /\ lit_exact v
+    /\ lit_Q v == inject_Z (pos_value 10 (map dval A))
+                  * Qpower 10 (if sign_neg sg then (- pos_value 10 (map dval es))%Z
+                               else pos_value 10 (map dval es)).
+Proof.
+  intros A sg es rest HA Hn He Hne Hr Hs.
+  rewrite (read_num_sci A sg es rest HA Hn He Hne Hr Hs). fold (sign_neg sg).
+  destruct (num_value A false [] (Some (sign_neg sg, es))) as [v|] eqn:E.
+  - exists v. split; [reflexivity|]. exact (sci_value_exact A (sign_neg sg) es v He E).
+  - exfalso. unfold num_value in E. destruct (sign_neg sg && (0 <? dec_val es)%Z); discriminate.
+Qed.
+
+Theorem based_value : forall bc hs rest, is_base_char bc = true -> hs <> [] ->
+  forallb is_hex hs = true -> hd_fails is_hex rest ->
+  read_num (48%N :: bc :: hs ++ rest)
+  = if forallb (fun c => (hex_val c <? base_of bc)%Z) hs
+    then NOk (2 + List.length hs) (LInt (pos_value (base_of bc) (map hex_val hs)))
+    else NBad.
+Proof. exact read_num_based. Qed.
+
+(* the exact rational of a decimal spelling *)
+Definition decimal_exact (D1 D2 : text) (ex : option (bool * text)) : Q :=
+  (inject_Z (pos_value 10 (map dval (D1 ++ D2))) / Qpower 10 (Z.of_nat (List.length D2))
+   * match ex with
+     | None => 1
+     | Some (neg, es) => Qpower 10 (if neg then (- pos_value 10 (map dval es))%Z
+                                    else pos_value 10 (map dval es))
+     end)%Q.
+
+Opaque Qred.
+Lemma decimal_value_q : forall (D1 D2 : text) (ex : option (bool * text)),
+  (forall neg (es : text), ex = Some (neg, es) -> forallb is_digit es = true) ->
+  exists qq, num_value D1 true D2 ex = mk_flt qq /\ qq == decimal_exact D1 D2 ex.
+Proof.
+  intros D1 D2 ex Hes. unfold decimal_exact.
+  set (m := pos_value 10 (map dval (D1 ++ D2))). set (f := Z.of_nat (List.length D2)).
+  assert (Hm : mantissa D1 D2 == inject_Z m / Qpower 10 f).
+  { unfold mantissa. rewrite dec_val_pos. fold m. fold f.
+    assert (P : (0 < 10 ^ f)%Z) by (apply Z.pow_pos_nonneg; unfold f; lia).
+    rewrite Qmake_Qdiv. rewrite Z2Pos.id by exact P. rewrite inject_Z_pow10 by (unfold f; lia). reflexivity. }
+  unfold num_value. destruct ex as [[neg es]|].
+  - assert (Hk : (0 <= pos_value 10 (map dval es))%Z).
+    { apply pos_value_nonneg; [lia|]. rewrite Forall_forall. intros d Hd. apply in_map_iff in Hd.
+      destruct Hd as (c & <- & Hc). unfold dval. lia. }
+    rewrite dec_val_pos. destruct neg; eexists; (split; [reflexivity|]).
+    + rewrite Hm. rewrite inject_Z_pow10 by exact Hk. rewrite Qpower_opp. reflexivity.
+    + rewrite Hm. rewrite inject_Z_pow10 by exact Hk. reflexivity.
+  - eexists; split; [reflexivity|]. rewrite Hm. rewrite Qmult_1_r. reflexivity.
+Qed.
+
+Lemma mk_flt_cases : forall qq q0, qq == q0 ->
+  ((flt_overflow <= q0)%Q /\ mk_flt qq = None)
+  \/ (~ (flt_overflow <= q0)%Q /\ exists q, mk_flt qq = Some (LFlt q) /\ q == q0).
+Proof.
+  intros qq q0 E. unfold mk_flt. destruct (Qle_bool flt_overflow qq) eqn:B.
+  - left. split; [|reflexivity]. apply Qle_bool_iff in B. rewrite <- E. exact B.
+  - right. split.
+    + intro F. rewrite <- E in F. apply Qle_bool_iff in F. congruence.
+    + exists (Qred qq). split; [reflexivity|]. rewrite Qred_correct. exact E.
+Qed.
+Transparent Qred.
+
+(* decimals: one token whose value is the exact rational of the spelling (tagged as a float:
+   the implementation holds the nearest double), or BadNumberError when that rational is
+   beyond the float range.  PARTIAL: the rounding float() performs is external. *)
+Theorem decimal_value : forall D1 D2 rest, forallb is_digit D1 = true -> forallb is_digit D2 = true ->
+  is_nil D1 && is_nil D2 = false ->
+  hd_fails is_digit rest -> (D2 = [] -> starts_dot rest = false) -> exp_match rest = None ->
+  let q0 := decimal_exact D1 D2 None in
+  ((flt_overflow <= q0)%Q /\ read_num (D1 ++ ch_dot :: D2 ++ rest) = NBad)
+  \/ (~ (flt_overflow <= q0)%Q /\ exists q, q == q0 /\
+        read_num (D1 ++ ch_dot :: D2 ++ rest) = NOk (List.length D1 + 1 + List.length D2) (LFlt q)).
+Proof.
+  intros D1 D2 rest H1 H2 Hn Hr Hs Hx q0.
+  rewrite (read_num_decimal D1 D2 rest H1 H2 Hn Hr Hs Hx).
+  destruct (decimal_value_q D1 D2 None ltac:(discriminate)) as (qq & E1 & E2). rewrite E1.
+  destruct (mk_flt_cases qq q0 E2) as [[A B]|[A (q & B & Cc)]].
+  - left. rewrite B. auto.
+  - right. split; [exact A|]. exists q. rewrite B. auto.
+Qed.
+
+Theorem decimal_sci_value : forall D1 D2 sg es rest,
+  forallb is_digit D1 = true -> forallb is_digit D2 = true -> is_nil D1 && is_nil D2 = false ->
+  forallb is_digit es = true -> es <> [] -> hd_fails is_digit rest -> sign_ok sg ->
+  let q0 := decimal_exact D1 D2 (Some (sign_neg sg, es)) in
+  let n := List.length D1 + 1 + List.length D2 + (1 + List.length sg + List.length es) in
+  ((flt_overflow <= q0)%Q /\ read_num (D1 ++ ch_dot :: D2 ++ ch_e :: sg ++ es ++ rest) = NBad)
+  \/ (~ (flt_overflow <= q0)%Q /\ exists q, q == q0 /\
+        read_num (D1 ++ ch_dot :: D2 ++ ch_e :: sg ++ es ++ rest) = NOk n (LFlt q)).
+Proof.
+  intros D1 D2 sg es rest H1 H2 Hn He Hne Hr Hs q0 n.
+  rewrite (read_num_decimal_sci D1 D2 sg es rest H1 H2 Hn He Hne Hr Hs). fold (sign_neg sg).
+  destruct (decimal_value_q D1 D2 (Some (sign_neg sg, es))) as (qq & E1 & E2).
+  { intros neg0 es0 E. injection E as _ <-. exact He. }
+  rewrite E1. destruct (mk_flt_cases qq q0 E2) as [[A B]|[A (q & B & Cc)]].
+  - left. rewrite B. auto.
+  - right. split; [exact A|]. exists q. rewrite B. auto.
+Qed.
+
+(* a digit run is never cut short, an identifier extends to the first non-identifier character *)
+Theorem number_maximal : forall r n v, read_num r = NOk n v ->
+  1 <= n <= List.length r /\ hd_fails is_digit (skipn n r).
+Proof. exact read_num_bounds. Qed.
+
+(* ------------------------------------------------------------------ combined forms *)
+Theorem tokenise_faithful_full : forall isspace isalpha isnumeric ctoks atoks,
+  all_nonempty ctoks = true ->
+  forall s ts, tokenise isspace isalpha isnumeric ctoks atoks s = LOk ts ->
+  spans_ok 0 (List.length s) ts /\ gaps_ws isspace s 0 ts /\ reassemble s 0 ts = s
+  /\ (forall t, In t ts -> lexeme_ok ctoks (sub s (t_begin t) (t_end t)) (t_tag t) (t_val t))
+  /\ (forall t, In t ts -> token_at isalpha isnumeric ctoks atoks s t).
+Proof.
+  intros isspace isalpha isnumeric ctoks atoks Hne s ts H.
+  destruct (tokenise_faithful isspace isalpha isnumeric ctoks atoks Hne s ts H) as (A & B & Cc & D).
+  split; [exact A|]. split; [exact B|]. split; [exact Cc|]. split.
+  - intros t Ht. exact (tokenise_lexemes isspace isalpha isnumeric ctoks atoks Hne s ts t H Ht).
+  - rewrite Forall_forall in D. exact D.
+Qed.
+
+Theorem longest_const : forall isspace isalpha isnumeric ctoks atoks,
+  (forall c, class_ok_b isspace isalpha isnumeric ctoks c = true) ->
+  order_ok atoks ctoks = true ->
+  forall r t, scan isalpha atoks ctoks r = Some t ->
+  In t ctoks /\ entry_hit isalpha atoks t r = true
+  /\ forall t', In t' ctoks -> entry_hit isalpha atoks t' r = true -> List.length t' <= List.length t.
+Proof.
+  intros isspace isalpha isnumeric ctoks atoks Hc Ho r t H.
+  destruct (scan_some _ _ _ _ _ H) as [A B]. split; [exact A|]. split; [exact B|].
+  exact (scan_longest isspace isalpha isnumeric ctoks atoks Hc ctoks r t Ho H).
+Qed.
+
+(* the constant token read at a position is the longest constant token that matches there *)
+Theorem const_token_longest : forall isspace isalpha isnumeric ctoks atoks,
+  (forall c, class_ok_b isspace isalpha isnumeric ctoks c = true) ->
+  order_ok atoks ctoks = true ->
+  forall r t n v, read_token isalpha isnumeric ctoks atoks r = RTok (TConst t) n v ->
+  n = List.length t /\ In t ctoks /\ entry_hit isalpha atoks t r = true
+  /\ forall t', In t' ctoks -> entry_hit isalpha atoks t' r = true -> List.length t' <= List.length t.
+Proof.
+  intros isspace isalpha isnumeric ctoks atoks Hc Ho r t n v H.
+  unfold read_token in H. destruct r as [|c x]; [discriminate|].
+  destruct (c =? ch_quote)%N; [destruct (str_end x); discriminate|].
+  destruct (c =? ch_hash)%N; [destruct (inst_end x); discriminate|].
+  destruct (num_start isnumeric (c :: x)); [destruct (read_num (c :: x)); discriminate|].
+  destruct (scan isalpha atoks ctoks (c :: x)) as [tk0|] eqn:E.
+  - injection H as <- <- <-. split; [reflexivity|].
+    exact (longest_const isspace isalpha isnumeric ctoks atoks Hc Ho _ _ E).
+  - destruct (ident_start c); discriminate.
+Qed.
+
+Theorem int_token : forall isspace isalpha isnumeric ctoks atoks,
+  (forall c, class_ok_b isspace isalpha isnumeric ctoks c = true) ->
+  forall A rest, forallb is_digit A = true -> A <> [] -> number_stop rest ->
+  read_token isalpha isnumeric ctoks atoks (A ++ rest)
+  = RTok TNum (List.length A) (VLit (LInt (pos_value 10 (map dval A)))).
+Proof.
+  intros isspace isalpha isnumeric ctoks atoks Hc A rest HA Hn Hs.
+  pose proof (int_value A rest HA Hn Hs) as E. destruct A as [|c A']; [congruence|].
+  simpl in HA. apply andb_true_iff in HA. destruct HA as [Hd _].
+  exact (read_token_num isspace isalpha isnumeric ctoks atoks Hc c (A' ++ rest) _ _ Hd E).
+Qed.
+
+Theorem ident_maximal : forall isalpha isnumeric ctoks atoks r n v,
+  read_token isalpha isnumeric ctoks atoks r = RTok TVar n v ->
+  v = VText (firstn n r) /\ forallb ident_char (firstn n r) = true
+  /\ (exists c cs, firstn n r = c :: cs /\ ident_start c = true)
+  /\ hd_fails ident_char (skipn n r).
+Proof.
+  intros isalpha isnumeric ctoks atoks r n v H.
+  exact (read_token_lexeme_basic isalpha isnumeric ctoks atoks r TVar n v H).
+Qed.
